@@ -57,6 +57,7 @@ func resolveAt(p *Path, idx int, v ssa.Value) ssa.Value {
 // agree with the edge taken).
 func pathAtoms(p *Path) (atoms []Atom, feasible bool) {
 	feasible = true
+	errSeen := map[ssa.Value]bool{}
 	for i := 0; i+1 < len(p.Blocks); i++ {
 		b, s := p.Blocks[i], p.Blocks[i+1]
 		ifi := blockIf(b)
@@ -92,6 +93,22 @@ func pathAtoms(p *Path) (atoms []Atom, feasible bool) {
 				}
 				// error plumbing (err == nil after a helper call) is not a decision of interest
 				if (isNilConst(y) && isErrorType(x.Type())) || (isNilConst(x) && isErrorType(y.Type())) {
+					// … but it decides feasibility: the same error value cannot be nil and non-nil on one
+					// path, and a φ that resolves to the nil constant along the path is nil
+					other := x
+					if isNilConst(x) {
+						other = y
+					}
+					if isNilConst(other) {
+						if !t {
+							feasible = false
+						}
+						continue
+					}
+					if prev, ok := errSeen[other]; ok && prev != t {
+						feasible = false
+					}
+					errSeen[other] = t
 					continue
 				}
 				atoms = append(atoms, Atom{Text: symOf(x).String() + " " + op.String() + " " + symOf(y).String(), Truth: t, X: x, Y: y, Op: op})
